@@ -26,10 +26,29 @@ func tileCenter(s *core.Source) (int, int) {
 	}
 }
 
-func tilePoint(s *core.Source, cx, cy int) orb.Point {
-	r := []int{4, 64, 2048}[s.Pick([]int{2, 2, 1}, "radius")]
-	return orb.Point{float64(cx + s.Range(0, 2*r, "dx") - r), float64(cy + s.Range(0, 2*r, "dy") - r)}
+const tileLimit = 1<<28 - 1 // |v| < 2^28
+
+func clampTile(v int) int {
+	if v > tileLimit {
+		return tileLimit
+	}
+	if v < -tileLimit {
+		return -tileLimit
+	}
+	return v
 }
+
+// drawRadius: mostly tile-sized shapes, sometimes shapes spanning up to 2^27
+// units (deltas and ring areas that do not fit 16/32-bit arithmetic).
+func drawRadius(s *core.Source) int {
+	return []int{4, 64, 2048, 1 << 16, 1 << 22, 1 << 27}[s.Pick([]int{6, 6, 3, 1, 1, 1}, "radius")]
+}
+
+func tilePointR(s *core.Source, cx, cy, r int) orb.Point {
+	return orb.Point{float64(clampTile(cx + s.Range(0, 2*r, "dx") - r)), float64(clampTile(cy + s.Range(0, 2*r, "dy") - r))}
+}
+
+func tilePoint(s *core.Source, cx, cy int) orb.Point { return tilePointR(s, cx, cy, drawRadius(s)) }
 
 func tilePoints(s *core.Source, min, max int) []orb.Point {
 	cx, cy := tileCenter(s)
@@ -54,17 +73,23 @@ func area2(r []orb.Point) int64 {
 // (the format drops the closing vertex and the decoder re-adds it only when
 // the ring is not already closed, so [a b c a a] and [a b c a] are the same ring).
 func TileRing(s *core.Source, cx, cy int, ccw bool) orb.Ring {
+	r := drawRadius(s)
 	for attempt := 0; ; attempt++ {
 		var ps []orb.Point
 		n := s.Range(3, 7, "nverts")
 		for i := 0; i < n; i++ {
-			p := tilePoint(s, cx, cy)
+			p := tilePointR(s, cx, cy, r)
 			if i > 0 && p == ps[0] {
 				p[0]++ // keep the first vertex unique
 			}
 			ps = append(ps, p)
 		}
 		a := area2(ps)
+		// the winding must not hinge on float rounding in a float64 shoelace
+		// over coordinates of this magnitude: require |2A| >= extent^2 / 2^20
+		if lim := int64(r) * int64(r) >> 20; a != 0 && a < lim && a > -lim && attempt <= 20 {
+			continue
+		}
 		if a == 0 {
 			if attempt > 20 {
 				ps = []orb.Point{{float64(cx), float64(cy)}, {float64(cx + 2), float64(cy)}, {float64(cx), float64(cy + 2)}}
